@@ -289,10 +289,18 @@ _div_cache = {}
 _ufs = {}
 
 
-def mk_solver(timeout_ms=10000):
-    s = z3.Solver()
-    s.set('timeout', timeout_ms)
+BUDGET_FACTOR = 2.0         # every nominal solver budget is multiplied by this (head-room for a loaded machine; verdicts must not flip)
+
+
+def set_budget(s, nominal_ms):
+    """wall-clock budget of a solver call.  (A deterministic `rlimit` was tried instead: for the nonlinear queries that end in
+    `unknown` z3 counts resources so slowly that the limit is never reached, so it cannot replace the timeout.)"""
+    s.set('timeout', int(nominal_ms * BUDGET_FACTOR))
     return s
+
+
+def mk_solver(timeout_ms=10000):
+    return set_budget(z3.Solver(), timeout_ms)
 
 
 def reset_symbols():
